@@ -6,9 +6,11 @@ from . import par
 
 def sample(chunks, every):
     """every n-th tree (by seed) in the quick tier; all of them in the thorough tier"""
+    # chosen by content, not by position: TLC's emission order varies from run to run
+    import zlib
     k = C.seed() % every
     for ch in chunks:
-        out = [l for i, l in enumerate(ch) if (i + k) % every == 0]
+        out = [l for l in ch if (zlib.crc32(l.encode() if isinstance(l, str) else repr(l).encode()) + k) % every == 0]
         if out:
             yield out
 
